@@ -121,6 +121,7 @@ theorem runFx_keep (a : Actor) (f : Fx) (hf : f ≠ .killSelf) (hs : a.stopTx = 
   | joinGroup g => simp only [runFx]; split <;> simp [hs, Life.C01.isFatal]
   | reply k v => simp only [runFx]; split <;> simp [hs, Life.C01.isFatal]
   | forget k => simp only [runFx]; split <;> simp [hs, Life.C01.isFatal]
+  | spawnChild c => simp [runFx, hs, Life.C01.isFatal]
 
 theorem runFxs_keep (fs : List Fx) (a : Actor) (hf : Fx.killSelf ∉ fs) (hs : a.stopTx = false) :
     (runFxs a fs).1.phase = a.phase ∧ (runFxs a fs).1.sigVal = a.sigVal ∧ (runFxs a fs).1.stopVal = a.stopVal ∧
